@@ -193,12 +193,22 @@ fn manual(env: &Env, s: usize) -> Observable<'static, V> {
 
 fn push_manual(env: &Env, s: usize, ev: &Ev) {
   let obs: Vec<Observer<'static, V>> = manual_slot(env, s).lock().unwrap().clone();
-  for o in obs.iter() {
+  // instrumented like the scripted cold sources: is_subscribed of each stored observer before and after the delivery
+  // (source id 1000+s, the observer's index in place of the attempt)
+  let probe = |j: usize, idx: usize, o: &Observer<'static, V>| {
+    let alive = o.is_subscribed();
+    let mut r = env.rec.lock().unwrap();
+    let (ll, cur) = (r.log.len(), r.cur);
+    r.probes.push((1000 + s, j, idx, alive, ll, cur));
+  };
+  for (j, o) in obs.iter().enumerate() {
+    probe(j, 0, o);
     match ev {
       Ev::N(v) => o.next(v.clone()),
       Ev::E(id) => o.error(mk_err(*id)),
       Ev::C => o.complete(),
     }
+    probe(j, 1, o);
   }
 }
 
